@@ -20,6 +20,7 @@ V12 the one-bit builder primitives (not, or, eq, mux, full adder, multiplier cel
     "push_mux(s, a, b) selects a when s" assumption of C02 / C14 / C01)
 V11 both reference evaluators compute xor / and / not of exactly the wires the gate names
 V10 cross-reference: call arguments are lowered in the caller's scope before any parameter is bound (C14-E7)
+V14 cross-reference: the optimiser's rewrites and the sweep keep the function (C04 O1, O4 - O10)
 """
 from .. import mir
 from ..core import AnchorMissing, Finding, RuleResult
@@ -1003,5 +1004,20 @@ def rule_v13(ctx):
     return res
 
 
+def rule_v14(ctx):
+    """Cross-reference: the optimiser's rewrites keep the function (C04 O4 - O10): C01 holds with de-duplication on or off."""
+    from . import C04
+    res = RuleResult("V14", "peephole rewrites and the dead-gate sweep keep the function (cross-reference to C04 O1, O4 - O10)")
+    ok = True
+    for fn in (C04.rule_o1, C04.rule_o4, C04.rule_o5, C04.rule_o7, C04.rule_o8, C04.rule_o9, C04.rule_o10):
+        r = fn(ctx)
+        for x in r.findings:
+            res.bad(Finding("V14", x.fn, x.site, x.message, x.span))
+            ok = False
+    if ok:
+        res.ok({"verdict": "C04 O1, O4, O5, O7 - O10 hold"})
+    return res
+
+
 def run(ctx):
-    return ctx.run_rules([rule_v13, rule_v12, rule_v11, rule_v1, rule_v2, rule_v3, rule_v4, rule_v5, rule_v6, rule_v7, rule_v8, rule_v9, rule_v10])
+    return ctx.run_rules([rule_v13, rule_v12, rule_v11, rule_v1, rule_v2, rule_v3, rule_v4, rule_v5, rule_v6, rule_v7, rule_v8, rule_v9, rule_v10, rule_v14])
